@@ -88,3 +88,29 @@ check("C12", "vloop+explore",
       "events between iterations). A fresh frame index is never a previously "
       "used one (10^9 range); index collisions with in-flight frames are "
       "explored.")
+
+check("C13", "vloop",
+      "exhaustive enumeration of argument lists through the real roundtrip "
+      "stack, independent struct reference",
+      "Every argument list of <= 3 format groups (7-9 formats incl. padding "
+      "and multi-value formats, each with values, the last optionally "
+      "read-only) x raw data in {None, 0, 3, b'', 1, 3, 40 bytes} x 2 "
+      "commands is sent through the real EtherCat.roundtrip / sendloop / "
+      "process_packet on the virtual loop; the payload found on the wire by "
+      "the independent frame parser and the returned value are compared with "
+      "a little-endian struct reference.",
+      "Default environment only (one frame, echoing position-coded bytes); "
+      "timing is C12's business.")
+check("C14", "vloop+bussim+explore",
+      "exhaustive enumeration of terminal behaviours, reference automaton "
+      "over the observed register traffic",
+      "For every start state (INIT, PRE-OP, SAFE-OP, OP) x error flag x "
+      "target, the real Terminal.to_operational/get_state run through the "
+      "real roundtrip stack on the virtual loop against the ESC model; the "
+      "explorer decides at every AL status poll whether the pending "
+      "transition stays (<= k polls, k=2 quick / 3 thorough), is reached or "
+      "fails (at most one error); ALL such behaviours are enumerated and "
+      "the sequence of AL control writes / AL status reads and the outcome "
+      "are judged by a reference automaton written from the statement.",
+      "The terminal model never reports a state that was not requested; "
+      "BOOTSTRAP is excluded as the statement says.")
